@@ -92,6 +92,23 @@ extern "C" int SSL_connect(SSL *s)
 namespace {
 
 // ---------------------------------------------------------------------------------------------------------------
+struct rec_callback : ftp::transfer_callback
+{
+    std::string polls; std::size_t i = 0; bool sticky = false;
+    void begin() override { ilog("cb:b"); }
+    void notify(std::size_t n) override { ilog("cb:n:" + std::to_string(n)); }
+    void end() override { ilog("cb:e"); }
+    bool is_cancelled() override
+    {
+        bool r = sticky;
+        if (!sticky && i < polls.size()) { r = polls[i] == '1'; }
+        i++;
+        if (r) sticky = true;
+        ilog(std::string("cb:p:") + (r ? "1" : "0"));
+        return r;
+    }
+};
+
 struct rec_observer : ftp::observer
 {
     int id;
@@ -184,7 +201,7 @@ std::string run(const std::vector<std::string> & tok)
             g_current_op = static_cast<int>(k - 2);
             alarm(20);
             take_log();
-            rec_sink sink; mem_source src; bool have_sink = false;
+            rec_sink sink; mem_source src; bool have_sink = false; rec_callback cb;
             std::string ret, s1, s2;
             const std::string & n = a[0];
             try
@@ -209,12 +226,22 @@ std::string run(const std::vector<std::string> & tok)
                     ftp::file_list_reply r = cl.get_file_list(std::nullopt, false);
                     ret = "ret:list:" + render_replies(r) + ":" + hex(r.get_file_list_str());
                 }
-                else if (n == "get") { if (!H(1, s1)) return "bad-op"; have_sink = true; ret = "ret:replies:" + render_replies(cl.download_file(sink, s1)); }
+                else if (n == "get")
+                {
+                    // get:<hexpath>:ok:<cb -|p<bits>>
+                    if (!H(1, s1)) return "bad-op";
+                    have_sink = true;
+                    ftp::transfer_callback *pcb = nullptr;
+                    if (a.size() > 3 && a[3] != "-") { cb.polls = a[3].substr(1); cb.i = 0; cb.sticky = false; pcb = &cb; }
+                    ret = "ret:replies:" + render_replies(cl.download_file(sink, s1, pcb));
+                }
                 else if (n == "put")
                 {
                     if (a.size() < 4 || !H(2, s1) || !parse_payload(a[3], src.data)) return "bad-op";
-                    if (a[1] == "APPE") ret = "ret:replies:" + render_replies(cl.append_file(src, s1));
-                    else ret = "ret:replies:" + render_replies(cl.upload_file(src, s1, a[1] == "STOU"));
+                    ftp::transfer_callback *pcb = nullptr;
+                    if (a.size() > 4 && a[4] != "-") { cb.polls = a[4].substr(1); cb.i = 0; cb.sticky = false; pcb = &cb; }
+                    if (a[1] == "APPE") ret = "ret:replies:" + render_replies(cl.append_file(src, s1, pcb));
+                    else ret = "ret:replies:" + render_replies(cl.upload_file(src, s1, a[1] == "STOU", pcb));
                 }
                 else if (n == "disc")
                 {
